@@ -11,6 +11,7 @@ EXPLANATION = ("C19 (narrow): the scheme table entry is selected only when the w
                "when they are set; authority URLs always pass the canonicaliser, which ends in the UTF-8 validator. Canonical "
                "form, idempotence and round trips are value-level and not decided.")
 EXPLANATION += ' Round 3: a numeric port is a complete conversion (R7); the IPv6 brackets of nng_url_sprintf depend on the host only (R8).'
+EXPLANATION += ' A numeric port starts with a digit: the converted value is used only behind a test of the first character (R11).'
 
 
 def rule_r1(ctx):
@@ -300,6 +301,64 @@ def rule_r7(ctx):
     numconv.check(ctx, r, fns, 1)
 
 
+def rule_r11(ctx):
+    r = ctx.rule("C19.R11", "T1", "a numeric port starts with a digit: the strto* family skips leading white space and accepts a sign, so the "
+                 "value converted from the port text is used only on paths on which the first character was compared with "
+                 "'0' and '9' (or classified by isdigit) -- `+80`, ` 80` and `-0` are not ports", floor=1)
+    f = ctx.prog.need("nni_get_port_by_name")
+    n = 0
+    from ..numconv import STRTO
+    for c in f.calls(STRTO):
+        a0 = f.expand(c.node["args"][0]) if c.node["args"] else None
+        if a0 is None or a0.get("k") != "var":
+            continue
+        text = a0["n"]
+        n += 1
+
+        def first_char(x):
+            while x is not None and x.get("k") == "cast":
+                x = x["e"]
+            if x is None:
+                return False
+            if x.get("k") == "idx":
+                b = f.expand(x["b"])
+                return b is not None and b.get("k") == "var" and b["n"] == text and const_of(x["i"]) == 0
+            return x.get("k") == "un" and x.get("op") == "*" and f.expand(x["e"]).get("k") == "var" and f.expand(x["e"])["n"] == text
+        lo, hi = {}, {}
+        for bid, k, atom, val in G.edge_facts(f):
+            if atom.get("k") == "bin" and atom.get("op") in (">=", "<=", ">", "<"):
+                l, rr, op = atom["lhs"], atom["rhs"], atom["op"]
+                if first_char(rr) and not first_char(l):
+                    l, rr, op = rr, l, {">=": "<=", "<=": ">=", ">": "<", "<": ">"}[op]
+                if not first_char(l):
+                    continue
+                cv = const_of(rr)
+                if not val:
+                    op, = [{">=": "<", "<=": ">", ">": "<=", "<": ">="}[op]]
+                if (op == ">=" and cv == 48) or (op == ">" and cv == 47):
+                    lo[bid] = k
+                if (op == "<=" and cv == 57) or (op == "<" and cv == 58):
+                    hi[bid] = k
+            elif val and any("isdigit" in (m.get("m") or []) for m in walk(atom)) and any(first_char(m) for m in walk(atom)):
+                lo[bid] = k
+                hi[bid] = k
+        # every store of the converted value to the caller happens behind both tests
+        outs = [t for t in f.assigns() if t.node["lhs"].get("k") == "un" and t.node["lhs"].get("op") == "*"]
+        guarded = [t for t in outs if lo and hi and G.dominated(f, (t.b, t.i), lo) and G.dominated(f, (t.b, t.i), hi)]
+        conv = [t for t in outs if any(m.get("k") == "var" and any(
+            d is not None and any(q.get("k") == "call" and q.get("fn") in STRTO for q in walk(d)) for _, d in G.var_defs(f, m["n"]))
+            for m in walk(f.expand(t.node["rhs"])))]
+        bad = [t for t in conv if t not in guarded]
+        if bad:
+            ctx.fail(r, f, "converted port used without a first-digit test", bad[0].line,
+                     "%s hands out the value %s converted from `%s` (line %s) on a path that never compared %s[0] with '0' and "
+                     "'9': leading blanks or a sign are taken as part of the number" % (f.name, c.node["fn"], text, bad[0].line, text))
+        else:
+            r.ob(f, "%s(%s): the result is stored only where %s[0] is a digit" % (c.node["fn"], text, text))
+    if n < 1:
+        raise AnalysisBroken("nni_get_port_by_name no longer converts with strto*")
+
+
 def rule_r8(ctx):
     r = ctx.rule("C19.R8", "T1", "nng_url_sprintf: whether the host is wrapped in [ ] depends on the host alone -- the stores of the "
                  "brackets are controlled only by tests of the host name, never by whether a port is printed (an IPv6 literal "
@@ -434,3 +493,4 @@ def run(ctx):
     ctx.guard(rule_r8)
     ctx.guard(rule_r9)
     ctx.guard(rule_r10)
+    ctx.guard(rule_r11)
